@@ -136,7 +136,7 @@ func (g *c03gen) primary() *anode {
 		k := r.Intn(4)
 		var sb strings.Builder
 		for i := 0; i < k; i++ {
-			sb.WriteRune(c03Runes[r.Intn(len(c03Runes))])
+			sb.WriteRune(g.pickRune())
 		}
 		n.val = sb.String()
 		return n
@@ -144,7 +144,7 @@ func (g *c03gen) primary() *anode {
 		c := &aclass{inv: r.Intn(3) == 0, ic: r.Intn(3) == 0}
 		pickm := func() rune {
 			for {
-				x := c03Runes[r.Intn(len(c03Runes))]
+				x := g.pickRune()
 				if x != '\n' {
 					return x
 				}
@@ -190,6 +190,19 @@ var c03CodeBits = []string{
 var c03SubsetCodeBits = []string{"return nil, nil", "if a { b() } else { c() }", "for { break }", "f(func() { g() })", "x := 1", "é := 世", "",
 	"\n\tx := 1\n\treturn x, nil\n", "\r\n\tif a {\r\n\t\tb()\r\n\t}\r\n", "a()\r b()", "\n\n",
 	"p := \"C:\\\\\"", "r := '\\\\'", "s := \"a\\\"b\" + `c\\`", "q := '\\''; t := \"\\\\\\\"\""}
+
+// pickRune draws a rune for a literal or class. The hand-written bootstrap scanner rejects the
+// escape of U+E000 (its own scan_test.go lists '\\ue000' among the invalid cases), so that rune is
+// not part of the bootstrap subset.
+func (g *c03gen) pickRune() rune {
+	for {
+		x := c03Runes[g.r.Intn(len(c03Runes))]
+		if g.subset && x == 0xE000 {
+			continue
+		}
+		return x
+	}
+}
 
 func (g *c03gen) code() string {
 	if g.subset {
